@@ -29,6 +29,7 @@ from lib import DAY_US, Result, request_j, request_policy_j, response_j, respons
 
 DRIVER = "kskm_driver_pkgb"
 ASSUMPTIONS = [
+    "entry-point stream: ksrsigner() is run with load_skr / load_ksr / init_pkcs11_modules / create_skr / output_skr_xml replaced by recording stubs (their behaviour is other properties' subject); only the position and effect of the check_skr_and_ksr call is observed",
     "the token enters check_last_skr_key_present only through get_p11_key(label, modules, public=True); it is replaced by a table-driven stub (found / public key text / raises), and the same table is given to the model",
     "key texts are canonical base64 (what the tools and reference clients emit); other spellings make the model answer 'unsupported'",
     "when two keys of the previous last bundle share an identifier but not a key text, 'the key published under the identifier' is ambiguous: the region is not evaluated there (side condition IdsDeterminePk of C08_iff), model and implementation are still compared",
@@ -766,6 +767,89 @@ def run_skr_stream(res: Result, r: Any, tier: str, driver_ok: bool) -> None:
 
 
 # --------------------------------------------------------------------------------------
+# the entry point: where ksrsigner() calls the checks (order of effects)
+# --------------------------------------------------------------------------------------
+
+
+def glue_run(ksr: Any, last: Any, new: Any, policy: Any, table: list[dict[str, Any]] | None, attached: str) -> tuple[list[str], Any]:
+    """Run the real kskm.tools.ksrsigner.ksrsigner() with the file loaders, token initialisation, create_skr and the
+    SKR writer replaced by recording stubs (they are other properties' subject); check_skr_and_ksr and
+    check_last_skr_and_new_skr are the real ones.  Returns (ordered effects, outcome)."""
+    import contextlib
+    import io
+    import logging
+    from argparse import Namespace
+
+    import kskm.ksr
+    import kskm.misc.hsm
+    import kskm.skr
+    import kskm.tools.ksrsigner as ks
+
+    events: list[str] = []
+
+    def rec(name: str, value: Any) -> Any:
+        events.append(name)
+        return value
+
+    args = Namespace(previous_skr="prev.xml" if last is not None else None, ksr="ksr.xml", skr="out.xml", force=True, schema="normal", hsm=None, log_ksr_contents=False, log_skr_contents=False, log_previous_skr_contents=False, config=None)
+    config = SimpleNamespace(get_schema=lambda name: None, response_policy=None, request_policy=policy, filenames=SimpleNamespace(previous_skr=None, input_ksr=None, output_skr=None))
+    saved = (kskm.skr.load_skr, kskm.ksr.load_ksr, kskm.misc.hsm.init_pkcs11_modules, ks.create_skr, ks.output_skr_xml)
+    kskm.skr.load_skr = lambda fn, pol, log_contents=False: rec("load_skr", last)
+    kskm.ksr.load_ksr = lambda fn, pol, log_contents=False: rec("load_ksr", ksr)
+    kskm.misc.hsm.init_pkcs11_modules = lambda config, name=None: rec("init_modules", modules_of(attached))
+    ks.create_skr = lambda request, schema, p11modules, config: rec("create_skr", new)
+    ks.output_skr_xml = lambda skr, fn, log_contents=False: rec("write", None)
+    try:
+        with TokenStub(table), contextlib.redirect_stdout(io.StringIO()):
+            out = run_impl(lambda: ks.ksrsigner(logging.getLogger("c08-glue"), args, config), lambda x: x)
+    finally:
+        kskm.skr.load_skr, kskm.ksr.load_ksr, kskm.misc.hsm.init_pkcs11_modules, ks.create_skr, ks.output_skr_xml = saved
+    return events, out
+
+
+def run_glue_stream(res: Result, pairs: list[Pair], r: Any, tier: str) -> None:
+    """Processing continues (create_skr is reached, an SKR is written) only if the chain region accepts; the
+    publish/retire flags are off here so that nothing but C08's rules stands between the KSR and the output."""
+    from kskm.common.config_misc import RequestPolicy
+    from kskm.signer.policy import check_skr_and_ksr
+
+    seen: set[tuple[str, str]] = set()
+    picked: list[Pair] = []
+    for p in pairs:
+        head = p.tag.split(":")[0]
+        kind = p.tag if head in ("honest", "id", "keys", "token", "empty") else f"{head}:{r.randrange(8 if tier == 'quick' else 60)}"
+        if (kind, p.attached) not in seen:
+            seen.add((kind, p.attached))
+            picked.append(p)
+    PRE = ["load_skr", "load_ksr", "init_modules"]
+    for p in picked:
+        for flags in [{f: True for f in CHAIN_FLAGS}, {f: r.random() < 0.5 for f in CHAIN_FLAGS}]:
+            policy = RequestPolicy(check_keys_publish_safety=False, check_keys_retire_safety=False, **flags)
+            events, out = glue_run(p.ksr, p.last, p.last, policy, p.table, p.attached)
+            with TokenStub(p.table):
+                direct = run_impl(lambda: check_skr_and_ksr(p.ksr, p.last, policy, modules_of(p.attached)))
+            case = {"stream": "ksrsigner-glue", "tag": p.tag, "flags": flags, "attached": p.attached, "request": request_j(p.ksr), "last": response_j(p.last), "token": p.table}
+            res.count(case)
+            res.bump("glue:" + ("written" if "write" in events else "stopped"))
+            reg = region(p.ksr, p.last, p.table, p.attached)
+            ambiguous = bool(p.last.bundles) and ids_ambiguous(p.last.bundles[-1]) and p.attached == "attached" and flags["check_chain_keys_in_hsm"]
+            if reg is not None and not ambiguous:
+                want = region_accepts(reg, flags)
+                if ("create_skr" in events) != want or ("write" in events) != want or (out == {"ok": True}) != want:
+                    res.violation("ksrsigner(): signing / writing does not coincide with the chain region", case, key="glue:" + p.tag.split(":")[0], effects=events, outcome=out, documented_region_accepts=want, clauses=reg)
+            # whatever the region says: the entry point must do exactly what check_skr_and_ksr decides, in this order
+            expect = PRE + (["create_skr", "write"] if "ok" in direct else [])
+            if events != expect or (("ok" in direct) and out != {"ok": True}) or (("ok" not in direct) and out != direct):
+                res.disagreement("ksrsigner(): effects / outcome differ from check_skr_and_ksr's verdict at the documented call site", case, {"effects": events, "outcome": out}, {"effects": expect, "check_skr_and_ksr": direct})
+    # without a previous SKR nothing is chained (the statement starts 'when a previous SKR is supplied')
+    last = base_last(2)
+    events, out = glue_run(base_ksr(last, 2, rid="skr-q1"), None, last, RequestPolicy(), None, "attached")
+    res.stats["glue:no-previous-skr"] = {"effects": events, "outcome": out}
+    if events != ["load_ksr", "init_modules", "create_skr", "write"] or out != {"ok": True}:
+        res.disagreement("ksrsigner() without previous SKR: unexpected effects", {"stream": "ksrsigner-glue", "tag": "no-previous-skr"}, {"effects": events, "outcome": out}, None)
+
+
+# --------------------------------------------------------------------------------------
 # run
 # --------------------------------------------------------------------------------------
 
@@ -805,7 +889,8 @@ def judge(res: Result, p_ksr: Any, p_last: Any, case: dict[str, Any], obs: dict[
     reg = region(p_ksr, p_last, table, attached)
     ambiguous = bool(p_last.bundles) and ids_ambiguous(p_last.bundles[-1]) and attached == "attached" and flags["check_chain_keys_in_hsm"]
     if any(not pub for _, pub in obs["calls"]):
-        res.violation("token lookup did not ask for the public object", case, key="lookup-private", calls=obs["calls"])
+        # the model's `lookup` parameter IS get_p11_key(label, modules, public=True): another question breaks the tie
+        res.disagreement("check_last_skr_key_present: the token was not asked for the PUBLIC object (model's lookup oracle assumes public=True)", case, obs["calls"], None)
     if reg is None:
         res.bump("region:not-applicable(no bundles)")
     elif ambiguous:
@@ -880,6 +965,7 @@ def run(tier: str, driver_ok: bool) -> Result:
     res.stats["F10_gap_witness_impl"] = got
 
     run_skr_stream(res, r, tier, driver_ok)
+    run_glue_stream(res, pairs, r, tier)
     return res
 
 
